@@ -168,6 +168,8 @@ def generate(seed, tier):
             extra.append([rw.random(), L2, _gen_starts(rw, N, L2, rw.randrange(1, 5))])
         sc["extra_bins"] = extra
         sc["pos"] = rw.randrange(0, nb + 1)
+        if rw.random() < 0.3:
+            sc["b_offset"] = rw.choice([0.25, -0.4, 3.0])     # the plan's reported bin number is informational only
     return sc
 
 
@@ -193,6 +195,8 @@ def _via_analyzer(sc, ws, x, y, out):
     cfg = {"fs": fs, "olap": 0.5, "bmin": 1.0, "Lmin": 1, "Jdes": 5, "Kdes": 2, "order": sc["order"], "win": sc["win"],
            "psll": sc["psll"], "scheduler": "custom", "custom_plan": bins, "num_patch_pts": None, "band": None,
            "force_target_nf": False, "backend": W.backend_of(ws)}
+    if sc.get("b_offset"):
+        cfg["custom_b_offset"] = sc["b_offset"]
     data = x if y is None else np.vstack([x, y])
     with W.analysis_world(ws) as ctx:
         an = SC.build_analyzer(data, cfg)
